@@ -41,6 +41,10 @@ pub enum Event {
         ret: GateIndex,
         /// Nesting depth (0 = requested from outside the rewrite rules).
         depth: u32,
+        /// Number of builder gates before the request.
+        gates_before: usize,
+        /// Number of builder gates after the request.
+        gates_after: usize,
     },
     /// A `push_panic_if(cond, ..)` call with the panic record before and after.
     PanicIf {
@@ -130,7 +134,14 @@ pub(crate) fn intercept_panic_if() -> bool {
     true
 }
 
-pub(crate) fn record_req(kind: ReqKind, x: GateIndex, y: GateIndex, ret: GateIndex) {
+pub(crate) fn record_req(
+    kind: ReqKind,
+    x: GateIndex,
+    y: GateIndex,
+    ret: GateIndex,
+    gates_before: usize,
+    gates_after: usize,
+) {
     let depth = DEPTH.with(|d| {
         let v = d.get().saturating_sub(1);
         d.set(v);
@@ -143,6 +154,8 @@ pub(crate) fn record_req(kind: ReqKind, x: GateIndex, y: GateIndex, ret: GateInd
             y,
             ret,
             depth,
+            gates_before,
+            gates_after,
         })
     });
 }
